@@ -358,11 +358,10 @@ class C08(Check):
             k = rng.choice([2, 3, 3])
             ks = tuple(rng.choice(KINDS) for _ in range(k))
             jobs.append((ks, 'random', rng.randrange(1 << 30), 40 if not thorough else 120, rng.choice(sorted(CFGS))))
-        if n >= 2 and not thorough:      # escalated quick run: the remaining kinds as well
-            for a in KINDS:
-                for b in KINDS:
-                    if a not in QUICK_KINDS or b not in QUICK_KINDS:
-                        jobs.append(((a, b), 'single', 0, 0, 'plain'))
+        if n >= 2 and not thorough:      # escalated quick run: a sample of the remaining pairs as well
+            rest = [(a, b) for a in KINDS for b in KINDS if a not in QUICK_KINDS or b not in QUICK_KINDS]
+            for a, b in rng.sample(rest, min(len(rest), 30 * n)):
+                jobs.append(((a, b), 'single', rng.randrange(1000), 0, rng.choice(sorted(CFGS)), (0, 1, 600)))
         return jobs
 
     def _run(self, rng, n):
